@@ -63,6 +63,13 @@ CLAIMED["C11"] = {
     "technique": "deterministic simulation: seeded store histories over eleven artefact kinds on a fault-injecting simulated disk with crash points and an ACK/UNKNOWN durability model",
 }
 
+CLAIMED["C17"] = {
+    "text": "Seeded search over histories on a shared pool of distribution objects: construct (tuple / bit-string / comma keys, normalised, rescaled, unnormalised, and invalid: empty, negative, ragged, all-zero), marginalise over random ordered qubit subsets with results joining the pool and sources re-used by other clients, compare pairs (also a with a, also through evaluate_distribution_distance) with MMD (scalar and list sigma from 1e-3 to 1e4), clipped NLL and JS, and save/load single and list forms through a fault-injecting simulated disk. After every step every pool object must equal the snapshot taken at its creation (source left intact); marginals are refined against a reference marginal in listed order; MMD symmetric, >= 0, zero on itself; NLL >= entropy - K*eps; JS symmetric; an acknowledged save loads with the same keys and probabilities. The normalisation arithmetic and the distance laws are pure and are exercised inside the same history machine. Evidence over sampled histories, not proof.",
+    "design_ref": "DESIGN.md §3 C17",
+    "note": "Trusted: the creation-time snapshot, the reference marginal, the entropy bound derivation (Gibbs + clipping mass), SimFS. Known finding (not an alarm): single-subsystem outcomes >= 10 do not survive save/load (K3). Real: MeasurementOutcomeDistribution, subdistribution, the three distance functions, evaluate_distribution_distance, save/load functions.",
+    "technique": "deterministic simulation: seeded histories on shared mutable objects with creation-time snapshots (source-intact invariant), reference marginal, and store steps on a fault-injecting simulated disk",
+}
+
 PENDING = {pid: "applicable (DESIGN.md §3) but its check is not built yet at this commit; not claimed until it is" for pid in
            ["C01", "C04", "C05", "C11", "C13", "C14", "C15", "C17", "C20"] if pid not in CLAIMED}
 
